@@ -172,6 +172,13 @@ def reader_genexp(interp, gen, src_info):
         return ()
     n = z3.simplify(hi - lo)
     srcs = _sources(fr)
+    if len(srcs) > 1:
+        # several streams in scope (an outer buffer and a temporary over one record): the one the element reads from
+        import ast as _ast
+        used = {nd.id for nd in _ast.walk(elt) if isinstance(nd, _ast.Name)}
+        named = [s_ for s_ in srcs if s_[0] in used]
+        if len(named) == 1:
+            srcs = named
     if len(srcs) != 1:
         raise Undecided("array loop: cannot identify the source being read")
     sname, src = srcs[0]
